@@ -1007,8 +1007,7 @@ func FuzzTodo(f *testing.F) {
 		c := genCase(&byteChooser{data: data}, 2, 16)
 		v := checkAPI(c)
 		if v.Violation != "" {
-			raw, _ := json.Marshal(c)
-			t.Fatalf("%s\ncase: %s", v.Violation, raw)
+			pbt.FuzzFail(t, "api", c, v.Violation)
 		}
 	})
 }
